@@ -6,7 +6,7 @@ use serde::{Deserialize, Serialize};
 use crate::engine::{guard, pick, run_sub, Ctx, Opts, Report, Sub, Tier};
 use crate::gen::dict::{assemble_sentence, raw_sentence, DictParams, TokOpts};
 use crate::props::common::{build_case_dict, tok_case, TokCase, TokCaseParams};
-use crate::refmodel::{make_tokenizer, tok_of, tokenize_fresh, tokens_of, Tok};
+use crate::refmodel::{tok_of, tokenize_fresh, tokens_of, Tok};
 
 #[derive(Clone, Debug, Serialize, Deserialize, PartialEq, Eq, Hash)]
 pub enum Op {
@@ -222,7 +222,7 @@ impl Sub for Histories {
         let files = b.spec.render();
         let o: TokOpts = b.opts.first().cloned().unwrap_or_default();
         let dict = build_case_dict(&files, b.user.as_deref(), None, false)?;
-        let tokenizer = make_tokenizer(dict, o.ignore_space, o.max_grouping_len)?;
+        let tokenizer = crate::refmodel::make_tokenizer_h(dict, o.ignore_space, o.max_grouping_len, o.history)?;
         let expect: Vec<Vec<Tok>> = guard(|| b.sentences.iter().map(|s| tokenize_fresh(&tokenizer, s)).collect())
             .map_err(|p| format!("fresh tokenization: {p}"))?;
         ctx.label(b.spec.conn.kind());
